@@ -87,6 +87,19 @@ Theorem C12_lex_parse_total :
 Proof. exact seqql_parse_total. Qed.
 Print Assumptions C12_lex_parse_total.
 
+(* Round trip: a list of atoms, written the way the harness writes text values (each preceded by
+   a space, in double quotes; atoms free of quote, backslash and asterisk, otherwise ARBITRARY bytes
+   including invalid UTF-8, comments signs and spaces), lexes back to exactly those atoms as quoted
+   tokens. Class oracle: the space is a space, the double quote is neither space, letter nor digit. *)
+Theorem C12_lex_roundtrip_atoms :
+  forall is_space is_letter is_digit : N -> bool,
+    is_space 32%N = true -> is_space 34%N = false ->
+    is_letter 34%N = false -> is_digit 34%N = false ->
+    forall ws : list bytes, forallb plain ws = true ->
+    lex is_space is_letter is_digit (render_dq ws) = ROk (map dq_tok ws).
+Proof. exact lex_render_dq. Qed.
+Print Assumptions C12_lex_roundtrip_atoms.
+
 (* non-vacuity, with ASCII class functions and a mapping k = keyword, t = text:
    k:"a\*b*" and not t:'x y' # c   parses; the unterminated  k:"a\"  lexes to six one-byte tokens
    (the error path of unquotePrefix) and is a parse error, not a panic *)
